@@ -249,4 +249,43 @@ theorem zoned_sub_assign_eq (z : Zoned) (δ : Delta) : Zoned.sub_assign z δ = Z
   unfold Zoned.sub_assign Zoned.sub Zoned.checked_sub_signed Zoned.from_utc_datetime
   rw [expect_zoned]
 
+/-! ### fused: a refused call changes nothing -/
+
+theorem fused_fwd (next back : Date → Res (Option (Date × Date))) (v : Date) (hn : next v = .ok none) :
+    ∀ k : Nat, runScript next back (List.replicate k false) v = .ok (List.replicate k none) := by
+  intro k
+  induction k with
+  | zero => rfl
+  | succ k ih =>
+    rw [List.replicate_succ, List.replicate_succ]
+    unfold runScript
+    simp only [Bool.false_eq_true, if_false]
+    rw [hn]; dsimp only; rw [ih]
+
+theorem fused_back (next back : Date → Res (Option (Date × Date))) (v : Date) (hn : back v = .ok none) :
+    ∀ k : Nat, runScript next back (List.replicate k true) v = .ok (List.replicate k none) := by
+  intro k
+  induction k with
+  | zero => rfl
+  | succ k ih =>
+    rw [List.replicate_succ, List.replicate_succ]
+    unfold runScript
+    simp only [if_true]
+    rw [hn]; dsimp only; rw [ih]
+
+/-! ### derived order of date-times, leap-second representations included -/
+
+theorem dt_cmp_general (a b : NaiveDT) (ha : NDTInv a) (hb : NDTInv b) :
+    NaiveDT.cmp a b =
+      sgn ((instSecs a - instSecs b) * 2000000000 + (a.time.frac - b.time.frac)) := by
+  have ta := ha.2
+  have tb := hb.2
+  unfold TValid at ta tb
+  unfold NaiveDT.cmp
+  dsimp only
+  rw [date_cmp_spec a.date b.date ha.1 hb.1]
+  unfold sgn Time.cmp instSecs
+  repeat' split
+  all_goals omega
+
 end Chrono.Proofs.ArithExt
